@@ -190,11 +190,14 @@ MODELS = {"quick": [("EpsPath", "EpsPath_q.cfg", "all eps-graphs on 3 states x a
                     ("NfaSim", "NfaSim_q.cfg", "nfa_simulate_word: forward pass with the stack of state sets, backward reconstruction "
                      "with every choice of accepting state, epsilon path and letter-move source; all NFAs on 2 states over {a}, words <= 2: "
                      "never stuck on an accepted word, partial result always a valid run suffix, result genuine, none iff rejected"),
+                    ("PdaSim", "PdaSim_q.cfg", "pda_simulate_word: NfaSim over configurations; all PDAs on 2 states over {a} / {X} with <= 3 "
+                     "moves, words <= 1, closures of <= 6 configurations"),
                     ("Derive", "Derive_q.cfg", "cfg_derive_word (tree construction + extraction worklists): every list of <= 3 "
                      "CNF rules over {S,A,B}/{a,b} in every order x every word <= 3 of the language x both modes: a valid "
                      "leftmost / rightmost derivation, termination")],
           "thorough": [("EpsPath", "EpsPath_t.cfg", "all eps-graphs on 4 states"),
                        ("NfaSim", "NfaSim_t.cfg", "all NFAs on 2 states over {a,b}, words <= 2 (647 k states)"),
+                       ("PdaSim", "PdaSim_t.cfg", "PDAs with <= 3 moves, words <= 2, closures of <= 8 configurations"),
                        ("Derive", "Derive_q.cfg", "rule lists <= 3, words <= 3"),
                        ("Derive", "Derive_t.cfg", "rule lists <= 4, words <= 4")]}
 RULE = ("NFA(2,{a,b}) and NFA(3,{a}) (strided), random NFAs (epsilon self-loops and cycles frequent), DFA(3,{a,b}) "
